@@ -9,6 +9,9 @@
 //   - sync.Mutex / sync.RWMutex          -> rt.Mutex / rt.RWMutex      (all instrumented files)
 //   - os.WriteFile/ReadFile/OpenFile/Create/Open/Remove/Rename, os.File -> rt.* (cdr/cdrFile, internal/cgf, internal/sbi/processor)
 //   - rt.Yield(<site>) before statements                               (yield packages, when -yields)
+//   - package-level variables initialised with a channel, timer, ticker, condition variable or
+//     context (objects that belong to the bubble they were made in) are made again at the start
+//     of every simulated run: `func init() { rt.OnBoot(func() { v = <same expression> }) }`
 //
 // A construct that is not recognised is left untouched; a file that does not parse is
 // copied unchanged (the compiler will then report the real error).
@@ -55,6 +58,39 @@ func under(rel string, dirs []string) bool {
 	return false
 }
 
+// bubbleBound reports whether the expression makes a channel, timer, ticker, condition
+// variable or context: objects that testing/synctest ties to the bubble they were made in.
+func bubbleBound(e ast.Expr) bool {
+	found := false
+	ast.Inspect(e, func(n ast.Node) bool {
+		if _, ok := n.(*ast.FuncLit); ok {
+			return false // made when the function runs, not when the package is initialised
+		}
+		c, ok := n.(*ast.CallExpr)
+		if !ok {
+			return true
+		}
+		switch fn := c.Fun.(type) {
+		case *ast.Ident:
+			if fn.Name == "make" && len(c.Args) > 0 {
+				if _, ok := c.Args[0].(*ast.ChanType); ok {
+					found = true
+				}
+			}
+		case *ast.SelectorExpr:
+			if x, ok := fn.X.(*ast.Ident); ok {
+				switch x.Name + "." + fn.Sel.Name {
+				case "time.NewTimer", "time.NewTicker", "time.After", "time.AfterFunc", "time.Tick",
+					"sync.NewCond", "context.WithCancel", "context.WithTimeout", "context.WithDeadline":
+					found = true
+				}
+			}
+		}
+		return true
+	})
+	return found
+}
+
 type siteInfo struct {
 	ID   int    `json:"id"`
 	File string `json:"file"`
@@ -73,7 +109,7 @@ func main() {
 	}
 	replace := map[string]string{}
 	var sites []siteInfo
-	nLock, nFile, nYield, nFiles := 0, 0, 0, 0
+	nLock, nFile, nYield, nFiles, nReinit := 0, 0, 0, 0, 0
 
 	err := filepath.Walk(*repo, func(path string, info os.FileInfo, err error) error {
 		if err != nil {
@@ -183,7 +219,34 @@ func main() {
 			}
 		}
 
-		if len(edits) == 0 {
+		// package-level objects that must belong to the run's bubble
+		var reinit []string
+		for _, d := range f.Decls {
+			gd, ok := d.(*ast.GenDecl)
+			if !ok || gd.Tok != token.VAR {
+				continue
+			}
+			for _, sp := range gd.Specs {
+				vs, ok := sp.(*ast.ValueSpec)
+				if !ok || len(vs.Values) != len(vs.Names) {
+					continue
+				}
+				for i, val := range vs.Values {
+					if vs.Names[i].Name == "_" || !bubbleBound(val) {
+						continue
+					}
+					txt := string(src[off(val.Pos()):off(val.End())])
+					if syncName != "" && syncName != "_" && syncName != "." {
+						txt = strings.ReplaceAll(txt, syncName+".Mutex", "rt.Mutex")
+						txt = strings.ReplaceAll(txt, syncName+".RWMutex", "rt.RWMutex")
+					}
+					reinit = append(reinit, fmt.Sprintf("func init() { rt.OnBoot(func() { %s = %s }) }", vs.Names[i].Name, txt))
+					nReinit++
+				}
+			}
+		}
+
+		if len(edits) == 0 && len(reinit) == 0 {
 			return nil
 		}
 		// import right after the package clause, on the same line
@@ -206,6 +269,9 @@ func main() {
 		}
 		b.Write(src[last:])
 		b.WriteString("\nvar _ = rt.Active\n")
+		for _, r := range reinit {
+			b.WriteString(r + "\n")
+		}
 		if syncName != "" && syncName != "_" && syncName != "." {
 			b.WriteString("var _ " + syncName + ".WaitGroup\n")
 		}
@@ -265,5 +331,5 @@ func main() {
 	}
 	sj, _ := json.Marshal(sites)
 	_ = os.WriteFile(filepath.Join(*out, "sites.json"), sj, 0o644)
-	fmt.Printf("instrument: files=%d locks=%d fileio=%d yields=%d\n", nFiles, nLock, nFile, nYield)
+	fmt.Printf("instrument: files=%d locks=%d fileio=%d yields=%d reinit=%d\n", nFiles, nLock, nFile, nYield, nReinit)
 }
